@@ -56,6 +56,8 @@ def nodes_to_data_digraph(nodes: dict[str, Node]) -> dict[str, set[str]]:
         node_dependencies = []
         for channel in node.inputs:
             locally_scoped_dependencies = []
+            if channel.owner is not node:
+                continue  # A child's channel exposed by a workflow, cf. data tree
             for upstream in channel.connections:
                 try:
                     upstream_node = nodes[upstream.owner.label]
@@ -228,6 +230,10 @@ def get_nodes_in_data_tree(node: Node) -> set[Node]:
     try:
         nodes = {node}
         for channel in node.inputs:
+            if channel.owner is not node:
+                # A workflow exposes its children's own channels: what feeds those
+                # lives inside the workflow, it is not upstream of it
+                continue
             for connection in channel.connections:
                 nodes = nodes.union(get_nodes_in_data_tree(connection.owner))
         return nodes
